@@ -55,11 +55,11 @@ var props = map[string]propSpec{
 	"C08": {Scenarios: []string{"refcount"}},
 	"C09": {Scenarios: []string{"refcount"}},
 	"C10": {Scenarios: []string{"refcount"}},
-	"C06": {Scenarios: []string{"keyedset"}},
+	"C06": {Scenarios: []string{"keyedset", "keyedrun"}},
 	"C07": {Scenarios: []string{"keyedrun", "keyedset"}},
 	"C04": {Scenarios: []string{"routine"}},
 	"C05": {Scenarios: []string{"routine"}},
-	"C14": {Scenarios: []string{"routine14"}},
+	"C14": {Scenarios: []string{"routine14", "routine"}},
 	"C12": {Scenarios: []string{"stack"}},
 	"C18": {Scenarios: []string{"conc"}},
 	"C16": {Scenarios: []string{"once"}},
